@@ -485,19 +485,19 @@ pub fn property() -> Property {
         assumptions: vec!["SHA-256 collisions are ignored (2^-128)", "predicates beyond 1000 nodes/edges have no defined address (skipped)"],
         health: vec![("addr.contract", "encoding>1KiB", 15), ("addr.contract", "perturbed", 300)],
         subs: vec![
-            prop_sub("addr.contract", 12_000, 500_000, |_| contract_case(), oracle_contract),
-            prop_sub("addr.solution_set", 15_000, 600_000, |_| set_case(), oracle_set),
+            prop_sub("addr.contract", 96_000, 768_000, |_| contract_case(), oracle_contract),
+            prop_sub("addr.solution_set", 120_000, 960_000, |_| set_case(), oracle_set),
             prop_sub(
                 "addr.program",
-                5_000,
-                200_000,
+                40_000,
+                320_000,
                 |_| (proptest::collection::vec(any::<u8>(), 0..200), proptest::option::of((any::<u32>(), any::<u8>()))).prop_map(|(b, p)| ProgCase(b, p)),
                 oracle_program,
             ),
             prop_sub(
                 "addr.perturb_exhaustive",
-                24,
-                400,
+                192,
+                1_536,
                 |_| (values::pred_sized(28usize..100, 0usize..60), gen::bytes32()).prop_map(|(p, s)| ExhaustivePerturb(p, s)),
                 oracle_exhaustive_perturb,
             ),
